@@ -380,8 +380,17 @@ def x10_x12_p2(ctx, tab, sites, pp):
     r10.floor('nested_run_sites', r10.instances, 3)
 
     # ---------- X11: calls that reach File::open from the loop are control dependent on !ignore_include
-    opens = {f for f, (cr, fl, fn, _) in tab.items() if cr == PP and any(sx.is_call(n) and n['f']['p'].endswith('File::open') for n in sx.walk(fn['body']))}
-    r11.floor('functions_opening_files', len(opens), 1)
+    direct_opens = {f for f, (cr, fl, fn, _) in tab.items() if cr == PP and any(sx.is_call(n) and n['f']['p'].endswith('File::open') for n in sx.walk(fn['body']))}
+    # functions from which a file open is reachable (through helper functions), excluding the loop function itself
+    opens = set(direct_opens)
+    changed = True
+    while changed:
+        changed = False
+        for caller, callee, call in sites:
+            if callee in opens and caller not in opens and caller != loopf and tab[caller][0] == PP:
+                opens.add(caller)
+                changed = True
+    r11.floor('functions_opening_files', len(direct_opens), 1)
     for n in sx.walk(pp.loop_fn['body']):
         if n.get('k') == 'call' and sx.is_path(n['f']) and n['f']['p'] in opens:
             arm = arm_of_line(pp, n.get('l'))
@@ -452,48 +461,44 @@ def x10_x12_p2(ctx, tab, sites, pp):
             if a0 != 'path':
                 r12.fail('%s:searched-path-not-used' % PP, pp.where(cll.get('l')), 'the file opened must be the path resulting from the search; found `%s`' % a0)
 
-    # ---------- P2
-    for f in sorted(opens):
+    # ---------- P2   (semantic, tri-state)
+    def same_path(a_, b_):
+        na = sq(a_).replace('.as_ref()', '').lstrip('&')
+        nb = sq(b_).replace('.as_ref()', '').lstrip('&')
+        return na == nb
+    for f in sorted(direct_opens):
         cr, fl, fn, names = tab[f]
         where = '%s/%s:%d' % (cr, fl, fn['l'])
         body = fn['body']
-        o = [n for n in sx.walk(body) if sx.is_call(n) and n['f']['p'].endswith('File::open')]
+        o = [n for n in sx.walk(body) if sx.is_call(n) and n['f']['p'].endswith('File::open') and len(n['args']) == 1]
         for c in o:
             p2.inst('open:%s' % f, {'fn': f, 'opens': sq(c['args'][0])})
-        # File::open(P).map_err(|x| Error::File{source: x, path: PathBuf::from(P)})?
-        m = [n for n in sx.walk(body) if n.get('k') == 'mcall' and n['m'] == 'map_err' and sx.is_call(n['recv']) and n['recv']['f']['p'].endswith('File::open')]
-        if len(m) != len(o) or not o:
-            p2.fail('%s:%s:open-error-unmapped' % (cr, f), where, 'the result of File::open must be mapped to Error::File')
-        for mm in m:
-            opened = sq(mm['recv']['args'][0])
-            cl = mm['args'][0]
-            lit = [n for n in sx.walk(cl) if n.get('k') == 'struct' and n['p'] == 'Error::File']
-            ok = False
-            if len(lit) == 1 and cl.get('k') == 'closure':
-                flds = {x['n']: sq(x['e']) for x in lit[0]['fields']}
-                ok = flds.get('source') == sx.pat_idents(cl['params'][0])[0] and flds.get('path') == 'PathBuf::from(%s)' % opened
-            p2.inst('open-mapped:%s' % f)
-            if not ok:
-                p2.fail('%s:%s:open-error-path' % (cr, f), where, 'Error::File must carry the io error and the very path that was opened (%s)' % opened)
-        # the mapped result is propagated with `?`
-        tries = [n for n in sx.walk(body) if n.get('k') == 'try' and any(x is mm for mm in m for x in [n['e']])]
-        if len(tries) != len(m):
-            p2.fail('%s:%s:open-error-dropped' % (cr, f), where, 'the mapped File::open result must be propagated with `?`')
-        # read_to_string: Err => Error::ReadUtf8(path opened)
+        files_ = [n for n in sx.walk(body) if n.get('k') == 'struct' and n['p'].endswith('Error::File')]
+        p2.inst('open-mapped:%s' % f, {'Error::File_sites': len(files_)})
+        if not files_:
+            p2.fail('%s:%s:open-error-unmapped' % (cr, f), where, 'a failing File::open in %s is not turned into Error::File{source, path}' % f)
+        else:
+            for lit in files_:
+                flds = {x['n']: x['e'] for x in lit['fields']}
+                pth = flds.get('path')
+                inner = pth['args'][0] if pth is not None and sx.is_call(pth) and pth['args'] else pth
+                if pth is None or 'source' not in flds:
+                    p2.undecided('%s:%s:open-error-path' % (cr, f), where, 'Error::File literal without explicit source/path fields')
+                elif not any(same_path(inner, c['args'][0]) for c in o):
+                    p2.fail('%s:%s:open-error-path' % (cr, f), where,
+                            'Error::File must name the very path that was opened (%s); it names `%s`' % (sq(o[0]['args'][0]), sq(pth)))
         rd = [n for n in sx.walk(body) if n.get('k') == 'mcall' and n['m'] in ('read_to_string', 'read_to_end', 'read')]
-        for rr in rd:
+        if rd:
             p2.inst('read:%s' % f)
-            # enclosing if-let Err(_) = .. { Err(Error::ReadUtf8(PathBuf::from(P))) }
-            host = None
-            for n in sx.walk(body):
-                if n.get('k') == 'if' and n['c'].get('k') == 'let' and any(x is rr for x in sx.walk(n['c'])):
-                    host = n
-            ok = False
-            if host is not None and sq(host['c']['pat']).startswith('Err('):
-                t = sq(host['t'])
-                ok = 'Err(Error::ReadUtf8(PathBuf::from(%s)))' % (sq(o[0]['args'][0]) if o else '?') in t
-            if not ok:
+            utf = [n for n in sx.walk(body) if sx.is_call(n) and n['f']['p'].endswith('Error::ReadUtf8') and len(n['args']) == 1]
+            if not utf:
                 p2.fail('%s:%s:read-error' % (cr, f), where, 'a failing read must yield Error::ReadUtf8 naming the file that was opened')
+            for u in utf:
+                a0 = u['args'][0]
+                inner = a0['args'][0] if sx.is_call(a0) and a0['args'] else a0
+                if not (o and same_path(inner, o[0]['args'][0])):
+                    p2.fail('%s:%s:read-error' % (cr, f), where,
+                            'Error::ReadUtf8 must name the file that was opened (%s); it names `%s`' % (sq(o[0]['args'][0]) if o else '?', sq(a0)))
     # no io result discarded with `let _ =` / `.ok()` / `.unwrap_or*` in the preprocessor
     for f, (cr, fl, fn, _) in tab.items():
         if cr != PP:
@@ -502,7 +507,7 @@ def x10_x12_p2(ctx, tab, sites, pp):
             if n.get('k') == 'mcall' and n['m'] in ('ok', 'unwrap_or_default', 'unwrap_or', 'unwrap_or_else') and \
                     any(x.get('k') == 'mcall' and x['m'] in ('read_to_string', 'read_to_end') or (sx.is_call(x) and x['f']['p'].endswith('File::open')) for x in sx.walk(n['recv'])):
                 p2.fail('%s:%s:io-result-discarded' % (cr, f), '%s/%s:%s' % (cr, fl, n.get('l')), 'an io result is discarded with .%s()' % n['m'])
-    p2.floor('io_sites', p2.instances, 3)
+    p2.floor('io_sites', p2.instances, 2)
     return [r10, r11, r12, p2]
 
 
